@@ -1,6 +1,7 @@
 // Reference description of the Outpost 2 map / saved-game layout (DESIGN.md appendix A): value type, serializer with
 // field map, prediction of the library writer's output, saved-game embedding. Flat byte vectors only.
 #pragma once
+#include <algorithm>
 #include "mc/mc.hpp"
 #include "ref_vol.hpp"   // Field
 #include <array>
@@ -92,6 +93,25 @@ inline std::vector<uint8_t> predictWritten(const RMap& m)
 	n.undocumented = m.groups.empty() ? 0 : uint32_t(m.groups.size() - 1);
 	n.trailing.clear();
 	return encodeMap(n);
+}
+
+// offset of the undocumented tile-group header word in predictWritten(m). The statement says that this word is regenerated, not
+// to what: comparisons of written bytes leave it out (the library's own choice is only required to be the same every time)
+inline std::size_t undocumentedWordOffset(const RMap& m)
+{
+	RMap n = m; n.savedGame = m.savedGame ? 1 : 0; n.trailing.clear();
+	std::vector<Field> f;
+	encodeMap(n, &f);
+	for (auto& x : f) if (x.name == "undocumented") return x.offset;
+	return std::size_t(-1);
+}
+// true iff the two serialisations agree everywhere except, possibly, in that word
+inline bool sameExceptUndocumentedWord(const std::vector<uint8_t>& written, const std::vector<uint8_t>& predicted, std::size_t off, std::size_t* firstDifference = nullptr)
+{
+	std::size_t n = std::min(written.size(), predicted.size());
+	for (std::size_t i = 0; i < n; ++i) if (written[i] != predicted[i] && !(i >= off && i < off + 4)) { if (firstDifference) *firstDifference = i; return false; }
+	if (written.size() != predicted.size()) { if (firstDifference) *firstDifference = n; return false; }
+	return true;
 }
 
 // saved game: 0x1E025 opaque bytes, map beginning, tag, unit block, tag
